@@ -44,7 +44,10 @@ def parseDir (s : String) : Option Dir :=
   if s == "up" then some .up else if s == "down" then some .down else none
 
 def pcTag : Pc → String
-  | .idle _ => "idle" | .idleT _ => "idleT" | .out _ _ => "out" | .nap _ _ => "nap"
+  | .idle _ => "idle" | .idleT _ => "idleT" | .out _ _ => "out"
+  | .nap _ w => (match w with
+     | .latency .. => "napL" | .bwInstal .. => "napBI" | .bwFinal .. => "napBF"
+     | .slicerGap .. => "napS" | .slowClose => "napC")
   | .hold _ => "hold" | .flush _ _ => "flush" | .ret => "ret" | .crash _ => "crash"
 
 def linkStr (nl : NLink) : String :=
